@@ -5,4 +5,6 @@ LEVEL = "proof"
 
 
 def contracts():
-    return layouts.contracts()
+    from contracts import lemmas
+
+    return layouts.contracts() + [lemmas.permutation_contract()]
